@@ -80,6 +80,20 @@ def decoders(ctx, thorough=False, nsub=40):
             o = rnd.randrange(n)
             x = rnd.randrange(256)
             dec(ty, v[:o] + bytes([x]) + v[o + 1:], "substitution at %d" % o)
+    # two different byte strings are never treated as the same message: decoded values of encodings that differ in one
+    # byte (one position inside every field, every type) compare unequal
+    for ty in DEC_TYPES:
+        v = enc_[ty]
+        offs = sorted({0, len(v) - 1} | {off + ln // 2 for _, off, ln in fl[ty]} | {(off + ln + min(len(v), off + ln + NN)) // 2 for _, off, ln in fl[ty]}
+                      | {rnd.randrange(len(v)) for _ in range(6)} | set(range(0, len(v), max(1, len(v) // 12))))
+        for o in offs:
+            if o >= len(v):
+                continue
+            w = v[:o] + bytes([v[o] ^ 0x01]) + v[o + 1:]
+            r = ctx.call("dec_eq", ty, v, w, impl_only=True)
+            if r is not None and r.ok:
+                # (the Debug comparison the harness also reports is informational: redacting secrets in Debug output is legitimate)
+                ctx.expect(r.outs[0] == "0", "%s: encodings differing in byte %d decode to values that compare unequal" % (ty, o))
     # key-level decoders
     for label, b in invalid_elements(L.ke, rnd) + alternative_point_encodings(L.ke, rnd):
         r = ctx.call("ke_pk", b)
